@@ -779,8 +779,10 @@ def immediate(unyt, case, b, R, rp):
             viol.append(("immediate:units", "unit-expression", f"{a['s']} -> {c['s']}"))
         elif a["dim"] != c["dim"]:
             viol.append(("immediate:units", "dimensions", f"{a['s']}: {a['dim']} -> {c['dim']}"))
-        elif not (fsame(a["bv"], c["bv"], False) and fsame(a["bo"], c["bo"], False)):
-            viol.append(("immediate:units", "scale", f"{a['s']}: scale/offset {a['bv']},{a['bo']} -> {c['bv']},{c['bo']}"))
+        elif not fsame(a["bv"], c["bv"], False):
+            viol.append(("immediate:units", "scale", f"{a['s']}: scale {a['bv']} -> {c['bv']}"))
+        elif not fsame(a["bo"], c["bo"], False):
+            viol.append(("immediate:units", "offset", f"{a['s']}: zero-point offset {a['bo']} -> {c['bo']}"))
         if isinstance(ux.base_value, np.generic) != isinstance(ur.base_value, np.generic):
             notes.append("ATTRIB:unit-scale-changed-between-numpy-scalar-and-python-float")
         try:
@@ -801,8 +803,10 @@ def immediate(unyt, case, b, R, rp):
             viol.append(("immediate:units", "unit-expression", f"second column: {pa['s']} -> {pc['s']}"))
         elif pa["dim"] != pc["dim"]:
             viol.append(("immediate:units", "dimensions", f"second column {pa['s']}: {pa['dim']} -> {pc['dim']}"))
-        elif not (fsame(pa["bv"], pc["bv"], False) and fsame(pa["bo"], pc["bo"], False)):
-            viol.append(("immediate:units", "scale", f"second column {pa['s']}: scale/offset {pa['bv']},{pa['bo']} -> {pc['bv']},{pc['bo']}"))
+        elif not fsame(pa["bv"], pc["bv"], False):
+            viol.append(("immediate:units", "scale", f"second column {pa['s']}: scale {pa['bv']} -> {pc['bv']}"))
+        elif not fsame(pa["bo"], pc["bo"], False):
+            viol.append(("immediate:units", "offset", f"second column {pa['s']}: zero-point offset {pa['bo']} -> {pc['bo']}"))
         if np.asarray(b.p.d).shape != np.asarray(rp.d).shape or not np.array_equal(np.asarray(b.p.d).astype(complex), np.asarray(rp.d).astype(complex)):
             viol.append(("immediate:numbers", "value", f"second column {np.asarray(b.p.d).tolist()} -> {np.asarray(rp.d).tolist()}"))
     # registry contents, entry by entry
